@@ -28,13 +28,18 @@ pub static DEF: CheckDef = CheckDef {
 
 fn generate(seed: u64, tier: Tier) -> Value {
     let mut r = Rng::new(seed);
-    let honest = r.range(2, 60);
+    // mostly small honest populations; one world in six has hundreds of honest identities, so that
+    // the truncated-iteration regimes (n > 100, n > 500) are met with a small Sybil share too
+    let honest = if r.chance(1, 6) { r.range(120, 600) } else { r.range(2, 60) };
     let n_anchor = r.range(1, honest.min(50));
     let mut ids: Vec<u64> = (0..honest).collect();
     r.shuffle(&mut ids);
     let anchors: Vec<u64> = ids[..n_anchor as usize].to_vec();
     let s_n = match tier {
-        Tier::Quick => if r.chance(1, 12) { r.range(101, 160) } else { r.range(1, 60) },
+        Tier::Quick => {
+            let k = r.below(15);
+            if k == 0 { r.range(500, 650) } else if k < 4 { r.range(101, 200) } else { r.range(1, 60) }
+        }
         Tier::Thorough => {
             let k = r.below(10);
             if k == 0 { r.range(400, 1000) } else if k < 3 { r.range(60, 400) } else { r.range(1, 60) }
@@ -55,14 +60,21 @@ fn generate(seed: u64, tier: Tier) -> Value {
             push_impl(&mut ops, tasks, $r, a, b, ok, reps)
         }};
     }
-    // honest graph
+    // honest graph; in one world in four a share of the honest raters only ever report failures
     let density = r.below(3);
+    let neg_only_below = if r.chance(1, 4) { r.range(1, honest) } else { 0 };
+    if neg_only_below > 0 && density == 0 {
+        for a in 0..neg_only_below {
+            let b = r.below(honest);
+            push!(&mut r, a, b, false, 1);
+        }
+    }
     if density > 0 {
         let edges = if density == 1 { honest } else { honest * 4 };
         for _ in 0..edges {
             let a = r.below(honest);
             let b = r.below(honest);
-            let ok = r.chance(9, 10);
+            let ok = if a < neg_only_below { false } else { r.chance(9, 10) };
             let reps = r.range(1, 3);
             push!(&mut r, a, b, ok, reps);
         }
@@ -131,6 +143,20 @@ fn generate(seed: u64, tier: Tier) -> Value {
         }
     }
     r.shuffle(&mut ops);
+    // transient voucher: an outside identity vouches for the set, a recomputation runs, then the
+    // voucher is removed from the trust system; in the end nobody outside the set rates it
+    let mut voucher_ops: Vec<Value> = Vec::new();
+    if r.chance(1, 3) {
+        let hub = 5_000u64;
+        let anchor = anchors[0];
+        voucher_ops.push(json!({"op": "local", "from": anchor, "to": hub, "ok": true, "task": 0, "delay_ms": 0}));
+        for _ in 0..r.range(1, 3) {
+            voucher_ops.push(json!({"op": "local", "from": hub, "to": *r.pick(&sybil), "ok": true, "task": 0, "delay_ms": 0}));
+        }
+        voucher_ops.push(json!({"op": "compute", "task": 0, "delay_ms": 1}));
+        voucher_ops.push(json!({"op": "tp_remove", "node": hub, "task": 0, "delay_ms": 1}));
+        voucher_ops.push(json!({"op": "yield", "task": 0, "delay_ms": 5}));
+    }
     // equal statistics: none, or identical for everybody (applied first, before any statement)
     let mut all_ops: Vec<Value> = Vec::new();
     let stats_mode = r.below(3);
@@ -146,7 +172,10 @@ fn generate(seed: u64, tier: Tier) -> Value {
             }
         }
     }
+    // the voucher episode runs on task 0 after everything else of task 0; other tasks are done long before
+    for o in voucher_ops.iter_mut() { o["delay_ms"] = json!(o["delay_ms"].as_u64().unwrap_or(0) + 5_000); }
     all_ops.extend(ops);
+    all_ops.extend(voucher_ops);
     if r.chance(1, 3) {
         all_ops.push(json!({"op": "compute", "task": 0, "delay_ms": 0}));
     }
@@ -199,11 +228,13 @@ fn execute(sc: &Value) -> RunReport {
         return ctx.finish(); // precondition: anchors exist
     }
     // closedness precondition is checked on the scenario itself (minimisation may not break it)
-    for o in sc["ops"].as_array().cloned().unwrap_or_default() {
+    let all = sc["ops"].as_array().cloned().unwrap_or_default();
+    for (i, o) in all.iter().enumerate() {
         if o["op"] == "local" || o["op"] == "tp_update" {
             let f = o["from"].as_u64().unwrap_or(0);
             let t = o["to"].as_u64().unwrap_or(0);
-            if f < 10_000 && t >= 10_000 {
+            let removed_later = all[i..].iter().any(|x| x["op"] == "tp_remove" && x["node"].as_u64() == Some(f));
+            if f < 10_000 && t >= 10_000 && !removed_later {
                 ctx.harness_error = Some("scenario violates closedness of the Sybil set".into());
                 return ctx.finish();
             }
